@@ -257,6 +257,9 @@ class DetailedMessage(ExpectedBase):
         run.oblige("shows.line_col", z3.Contains(o, z3.Concat(py_str_int(ln), z3.StringVal(":"), py_str_int(col), z3.StringVal("\n"))))
         run.oblige("shows.source_line", z3.Contains(o, z3.Concat(z3.StringVal("\n"), py_str_int(ln), z3.StringVal(" | "), line, z3.StringVal("\n"))))
         run.oblige("shows.message", z3.PrefixOf(z3.Concat(pre["msg"], z3.StringVal("\n")), o))
+        # the caret sits under column `col` (1-based): col - 1 blanks after the gutter (campaign 7: `col + 1`, `col - 0`, `col - 2`
+        # survived - the property says "the line:column ... shown are those of p", the caret is how the column is shown)
+        run.oblige("shows.caret_under_col", z3.Contains(o, z3.Concat(z3.StringVal(" | "), py_repeat(z3.StringVal(" "), col - 1), z3.StringVal("^ "))))
 
 
 class ErrInit(ExpectedBase):
